@@ -1,5 +1,5 @@
 From Tramp Require Import Model.Base Model.Fee Model.Classify Model.Node Model.Provider Model.ProviderSys Model.Sys.
-From Tramp Require Import Proofs.SysBasics Proofs.SysShape Proofs.SysTheorems Proofs.SysTimers Proofs.SysReach Proofs.SysCalls Proofs.SysNode Proofs.SysSafety Proofs.SysLive Props.C06.
+From Tramp Require Import Proofs.SysBasics Proofs.SysShape Proofs.SysTheorems Proofs.SysTimers Proofs.SysReach Proofs.SysCalls Proofs.SysNode Proofs.SysSafety Proofs.SysLive Proofs.SysTerm Props.C06.
 Check C06_held_or_answered : forall c s h,
   (exists en, entry_ (pl (fst (step c s (EvHtlc h)))) = Some en /\ In h (listeners en)) \/
   (exists r, In (OResp (hid h) r) (snd (step c s (EvHtlc h)))).
@@ -29,6 +29,22 @@ Check C06_every_held_htlc_is_answered : forall c n t0 h0 a0 evs en h,
   node_ok n -> hist_wf true c (sys_start n t0 h0 a0) evs ->
   let s := after c n t0 h0 a0 evs in
   entry_ (pl s) = Some en -> In h (listeners en) -> Answered c (hid h) s.
+Check C06_no_internal_divergence : forall c s evs,
+  reachable c s -> forallb internal evs = true ->
+  (forall k e, nth_error evs k = Some e -> seffective c (srun c s (firstn k evs)) e) ->
+  (length evs <= phi s)%nat.
+Check (eq_refl : internal = fun ev => match ev with EvProcess _ _ | EvDeliver _ _ | EvPoll _ => true | _ => false end).
+Check (eq_refl : seffective = fun c s ev => fst (step c s ev) <> s).
+Check C06_progress_runs_are_bounded : forall c s evs,
+  reachable c s ->
+  (forall k e, nth_error evs k = Some e -> progress_ev (srun c s (firstn k evs)) e = true /\ seffective c (srun c s (firstn k evs)) e) ->
+  (length evs <= Phi c s)%nat.
+Check C06_at_rest_means_all_answered : forall c n t0 h0 a0 evs,
+  node_ok n -> hist_wf true c (sys_start n t0 h0 a0) evs ->
+  let s := after c n t0 h0 a0 evs in
+  (forall ev, progress_ev s ev = true -> ev_wf true s ev -> ~ seffective c s ev) -> entry_ (pl s) = None.
+Check (eq_refl : progress_ev = fun s ev => match ev with
+  | EvProcess _ _ | EvDeliver _ _ | EvPoll _ | EvPart _ _ | EvPayFinish _ _ => true | EvTick _ => timer_armed s | _ => false end).
 Print Assumptions C06_every_held_htlc_is_answered.
 Print Assumptions C06_held_or_answered.
 Print Assumptions C06_poll_held_or_answered.
@@ -36,3 +52,6 @@ Print Assumptions C06_answered_together_once.
 Print Assumptions C06_no_panic.
 Print Assumptions C06_never_stuck.
 Print Assumptions C06_answered_at_deadline.
+Print Assumptions C06_no_internal_divergence.
+Print Assumptions C06_progress_runs_are_bounded.
+Print Assumptions C06_at_rest_means_all_answered.
